@@ -45,6 +45,8 @@ pub(crate) struct FromLink {
 }
 
 impl FromLink {
+  const PEER_THREAD_STACK_SIZE: usize = 8 * 1024 * 1024;
+
   pub(crate) fn run(self, env: &mut Env, options: &Options) -> Result<()> {
     let link = xor_args(
       "input_flag",
@@ -77,10 +79,21 @@ impl FromLink {
       errln!(env, "Trackers returned {} peers.", peers.len())?;
     }
 
-    let info = peers.par_iter().find_map_any(|addr| {
-      peer::Client::connect(addr, infohash)
-        .ok()
-        .and_then(|c| c.fetch_info_dict().ok())
+    // A peer decides how deeply the bencode it sends is nested, and the
+    // decoders recurse once per level, up to their limit of 2048 levels. The
+    // default stack of a worker thread does not hold that much, so talk to
+    // peers on threads with the stack size of the main thread.
+    let pool = rayon::ThreadPoolBuilder::new()
+      .stack_size(Self::PEER_THREAD_STACK_SIZE)
+      .build()
+      .map_err(|error| Error::internal(format!("Failed to start peer threads: {error}")))?;
+
+    let info = pool.install(|| {
+      peers.par_iter().find_map_any(|addr| {
+        peer::Client::connect(addr, infohash)
+          .ok()
+          .and_then(|c| c.fetch_info_dict().ok())
+      })
     });
 
     let metainfo = match info {
